@@ -127,6 +127,29 @@ claim(
     "DESIGN.md section 4, C13",
 )
 
+claim(
+    "C02",
+    "CFG dominance of the bounds check over every emission; all-path symbolic enumeration of check_mem_limits; path-enumerated region / limit tables "
+    "for both spilling modes; who-assigns rules for permanent memory types and DMA destinations; single-writer rule for published extents",
+    "Decides clauses a-e of DESIGN.md 4/C02: every operation is bounds-checked on its own access set before anything is emitted; the check rejects an "
+    "unknown region, negative and too-large offsets for both ends of every range of every direction; limits come from the architecture with the arena "
+    "cache size as the fast-scratch limit exactly when spilling; nothing can be placed in / DMA'd to the constants region outside the reviewed producers; "
+    "published scratch extents are the root subgraph's allocator totals. Does NOT decide that addresses stay inside the *published* tensor sizes.",
+    "Trusted: asserts enabled; the reviewed producer tables (one line of reason each in the checker).",
+    "DESIGN.md section 4, C02",
+)
+claim(
+    "C12",
+    "single-writer / single-reader rule for reported and published sizes; option plumbing check of --cpu-tensor-alignment hop by hop; structural check "
+    "of the OfflineMemoryAllocation layout against the tensor-table order; in-place reuse precondition",
+    "Decides clauses a-d of DESIGN.md 4/C12: console / CSV figures and scratch tensor shapes come from the same allocator total of the root subgraph; the "
+    "requested CPU alignment reaches live-range creation, all three allocators and the verifier, and illegal values are rejected; metadata header, "
+    "per-subgraph offsets, -1 default and arena-only offsets follow the tensor-table order; a tensor leaving the subgraph is never overwritten in place. "
+    "Does NOT decide overlap of arena tensors under the output operator order (needs concrete addresses).",
+    "Trusted: recognised idioms of tflite_writer.serialise_model; keyword plumbing resolved by name.",
+    "DESIGN.md section 4, C12",
+)
+
 
 def build():
     checks = []
